@@ -170,6 +170,173 @@ def value_inheritance(shape):
                     sorted([id(o) for o in again]) == sorted([id(exp[k][0]) for k in exp]))
 
 
+# ------------------------------------------------------------------------------------------- category wiring (C09)
+# _finalize_init applies the inheritance function to 17 categories of objects, each with its own source of local
+# objects and its own NOT-INHERITED list.  The real _finalize_init is run on a base variant with one protocol parent.
+from odxtools.diagservice import DiagService  # noqa: E402
+from odxtools.nameditemlist import NamedItemList  # noqa: E402
+from odxtools.singleecujob import SingleEcuJob  # noqa: E402
+
+# category -> (where the local objects live, the NOT-INHERITED list of the parent reference that applies - ISO 22901-1
+# 7.3.2.4 / 7.4.x: diag comms, global negative responses, DOPs (all data dictionary items but tables), tables; the other
+# categories cannot be excluded)
+DDD_CATS = ["data_object_props", "structures", "dtc_dops", "static_fields", "end_of_pdu_fields",
+            "dynamic_endmarker_fields", "dynamic_length_fields", "env_data_descs", "env_datas", "muxs", "tables"]
+RAW_CATS = ["diag_comms", "global_negative_responses", "functional_classes", "additional_audiences", "state_charts"]
+EXCLUDED_BY = {"diag_comms": "not_inherited_diag_comms", "global_negative_responses": "not_inherited_global_neg_responses",
+               "tables": "not_inherited_tables", "functional_classes": None, "additional_audiences": None,
+               "state_charts": None, "unit_groups": None}
+for _c in DDD_CATS:
+    EXCLUDED_BY.setdefault(_c, "not_inherited_dops")
+ALL_CATS = RAW_CATS + DDD_CATS + ["unit_groups"]
+EXCLUSION_LISTS = ["not_inherited_diag_comms", "not_inherited_global_neg_responses", "not_inherited_dops",
+                   "not_inherited_tables", "not_inherited_variables"]
+
+
+class GhostUnitSpec:
+    def __init__(self, unit_groups):
+        self.unit_groups = unit_groups
+        self.units = NamedItemList([])
+        self.physical_dimensions = NamedItemList([])
+
+
+class GhostDDD:
+    def __init__(self):
+        self.admin_data = None
+        self.sdgs = []
+        self.unit_spec = None
+
+
+class GhostFullRaw:
+    def __init__(self, name, kind):
+        self.short_name = name
+        self.variant_type = T[kind]
+        self.parent_refs = []
+        self.comparam_refs = []
+        self.diag_data_dictionary_spec = None
+
+    def _resolve_snrefs(self, context):
+        pass
+
+
+class GhostFullParentRef:
+    def __init__(self, layer):
+        self.layer = layer
+
+
+def _named(cls, name):
+    o = cls.__new__(cls)
+    o.short_name = name
+    return o
+
+
+def _populate(raw, prefix_names, with_ddd):
+    """every category gets one object per name; names are unique per category"""
+    for c in RAW_CATS:
+        objs = []
+        for n in prefix_names:
+            if c == "diag_comms":
+                objs.append(_named(DiagService if n != "j" else SingleEcuJob, f"{n}_{c}"))
+            else:
+                objs.append(Obj(f"{n}_{c}", 1))
+        setattr(raw, c, objs)
+    if with_ddd:
+        ddd = GhostDDD()
+        for c in DDD_CATS:
+            setattr(ddd, c, [Obj(f"{n}_{c}", 1) for n in prefix_names])
+        ddd.unit_spec = GhostUnitSpec([Obj(f"{n}_unit_groups", 1) for n in prefix_names])
+        raw.diag_data_dictionary_spec = ddd
+
+
+def _full_layer(name, kind, with_ddd, names):
+    L = HierarchyElement.__new__(HierarchyElement)
+    L.diag_layer_raw = GhostFullRaw(name, kind)
+    _populate(L.diag_layer_raw, names, with_ddd)
+    DiagLayer.__post_init__(L)  # the part of the constructor that does not insist on a real raw layer
+    return L
+
+
+@harness(props=["C09"], strength="B",          family=lambda t, s: [{"child_has_ddd": a, "parent_has_ddd": b} for a in (True, False) for b in (True, False)],
+         bound="a base variant inheriting from one protocol layer; every one of the 17 object categories holds two "
+         "objects (three for diag comms) in the parent and one in the child; the content of each of the five "
+         "NOT-INHERITED lists of the parent reference is symbolic (empty or naming one object of every category)",
+         functions=[HierarchyElement._finalize_init, HierarchyElement._compute_value_inheritance,
+                    HierarchyElement._compute_available_diag_comms,
+                    HierarchyElement._compute_available_global_neg_responses,
+                    HierarchyElement._compute_available_ddd_spec_items,
+                    HierarchyElement._compute_available_functional_classes,
+                    HierarchyElement._compute_available_additional_audiences,
+                    HierarchyElement._compute_available_state_charts,
+                    HierarchyElement._compute_available_unit_groups, DiagLayer.__post_init__, DiagLayer._get_local_diag_comms,
+                    DiagLayer._get_local_unit_groups],
+         covers=["finalized"])
+def category_wiring(child_has_ddd, parent_has_ddd):
+    """after the real _finalize_init, every category of objects a layer offers = its own objects of that category +
+    the parent's objects of that category minus the names in the NOT-INHERITED list that governs that category (and no
+    other list), under the attribute of that category"""
+    parent = _full_layer("pr", "PR", parent_has_ddd, ["p", "q", "j"])
+    child = _full_layer("bv", "BV", child_has_ddd, ["r"])
+    ref = GhostFullParentRef(parent)
+    flags = {}
+    for lst in EXCLUSION_LISTS:
+        flags[lst] = H.bool(f"{lst}_names_p")
+        setattr(ref, lst, [f"p_{c}" for c in ALL_CATS] if flags[lst] else [])
+    child.diag_layer_raw.parent_refs.append(ref)
+    parent._finalize_init(None, None)
+    child._finalize_init(None, None)
+    H.cover("finalized")
+    _check_views(child, parent, ["p", "q", "j"], flags, child_has_ddd, parent_has_ddd)
+    # second round: the raw data of the parent loses its "q" objects and the hierarchy is refreshed - what a layer
+    # offers is recomputed from the raw data, not from the views of the previous round
+    _drop(parent.diag_layer_raw, "q")
+    parent._finalize_init(None, None)
+    child._finalize_init(None, None)
+    _check_views(child, parent, ["p", "j"], flags, child_has_ddd, parent_has_ddd)
+
+
+def _drop(raw, n):
+    for c in RAW_CATS:
+        setattr(raw, c, [o for o in getattr(raw, c) if not o.short_name.startswith(n + "_")])
+    ddd = raw.diag_data_dictionary_spec
+    if ddd is not None:
+        for c in DDD_CATS:
+            setattr(ddd, c, [o for o in getattr(ddd, c) if not o.short_name.startswith(n + "_")])
+        ddd.unit_spec.unit_groups = [o for o in ddd.unit_spec.unit_groups if not o.short_name.startswith(n + "_")]
+
+
+def _view(layer, c):
+    ddd = layer.diag_data_dictionary_spec
+    if c in RAW_CATS:
+        return getattr(layer, c)
+    if c == "unit_groups":
+        return [] if ddd.unit_spec is None else ddd.unit_spec.unit_groups
+    return getattr(ddd, c)
+
+
+def _check_views(child, parent, parent_names, flags, child_has_ddd, parent_has_ddd):
+    for c in ALL_CATS:
+        parent_defines = True if c in RAW_CATS else parent_has_ddd
+        child_defines = True if c in RAW_CATS else child_has_ddd
+        expected = []
+        if parent_defines:
+            for n in parent_names:
+                excluded = n == "p" and EXCLUDED_BY[c] is not None and flags[EXCLUDED_BY[c]]
+                if not excluded:
+                    expected.append(f"{n}_{c}")
+        if child_defines:
+            expected.append(f"r_{c}")
+        H.check("C09:each-category-inherits-its-own-objects-minus-its-own-not-inherited-list",
+                sorted([o.short_name for o in _view(child, c)]) == sorted(expected))
+        H.check("C09:a-parents-own-view-is-its-own-objects",
+                sorted([o.short_name for o in _view(parent, c)]) ==
+                sorted([f"{n}_{c}" for n in parent_names] if parent_defines else []))
+    H.check("C09:services-and-jobs-are-the-diag-comms-of-that-kind",
+            H.And(sorted([o.short_name for o in child.diag_services]) ==
+                  sorted([o.short_name for o in child.diag_comms if isinstance(o, DiagService)]),
+                  sorted([o.short_name for o in child.single_ecu_jobs]) ==
+                  sorted([o.short_name for o in child.diag_comms if isinstance(o, SingleEcuJob)])))
+
+
 # =============================================================================================================== C15
 import warnings  # noqa: E402
 
